@@ -423,6 +423,13 @@ def apply_edit(st, op) -> bool:
         del m["imports"][op["dep"]]
     elif kind == "restyle_import" and op.get("dep") in m["imports"]:
         m["imports"][op["dep"]] = op["style"]
+    elif kind == "change_used_export":
+        # change the interface of an export that some OTHER module uses (so the edit has dependants)
+        used = sorted({u["name"] for o, om in st["mods"].items() if o != mod for u in om["uses"] if u["dep"] == mod and u["name"] in m["exports"]})
+        if used:
+            e = m["exports"][rnd.choice(used)]
+            for fld in ("p", "r", "t", "t2"):
+                e[fld] = rnd.choice([t for t in TYPES if t != e[fld]])
     elif kind == "toggle_body_error":
         # body-only edit: an error appears/disappears inside a definition, the interface stays the same
         cands = sorted(k for k, x in m["exports"].items() if x["kind"] in ("func", "cls", "dc"))
@@ -492,8 +499,8 @@ PROFILES = {
     # daemon-friendly fragments, enabled construct by construct (C03 saturation protocol)
     "basic": {"edits": ["change_export", "change_export", "add_export", "remove_export", "add_use", "remove_use", "change_use", "toggle_ignore", "toggle_semblock", "toggle_body_error", "fix_errors", "set_base", "make_subclass", "make_subclass"],
               "styles": ["import", "import", "from"], "kinds": ["func", "func", "cls", "cls", "const", "alias", "box", "nt", "dc", "enum", "ovl"]},
-    "structure": {"edits": ["change_export", "add_export", "remove_export", "add_use", "remove_use", "change_use", "add_import", "remove_import", "restyle_import", "toggle_broken", "toggle_ignore",
-                            "delete_module", "add_module", "set_base", "fix_errors"],
+    "structure": {"edits": ["change_export", "change_export", "add_export", "remove_export", "add_use", "remove_use", "change_use", "remove_import", "restyle_import", "toggle_broken", "toggle_semblock", "change_used_export",
+                            "toggle_ignore", "toggle_body_error", "set_base", "make_subclass", "make_subclass", "fix_errors"],
                   "styles": ["import", "import", "from", "func", "tc"], "kinds": ["func", "func", "cls", "cls", "const", "alias", "box", "proto", "nt", "td", "dc", "enum", "ovl", "deco"]},
 }
 
